@@ -308,4 +308,11 @@ def spec (E : Env) (t : Table) (cs : List Cls) : Out :=
   if ar.isEmpty && be.isEmpty && pr.isEmpty && af.isEmpty then ⟨[], .noApplicable⟩
   else specRun ar be pr.head? af
 
+/-- the outcomes the specification assigns to the operations of a history -/
+def specOuts (E : Env) : List Op → Table → List Out
+  | [], _ => []
+  | .call cs :: ops, t => spec E t cs :: specOuts E ops t
+  | .defmethod q k b :: ops, t => Out.nothing :: specOuts E ops (t.set k q (some b))
+  | .remove q k :: ops, t => Out.nothing :: specOuts E ops (t.set k q none)
+
 end SlipVerif.Dispatch
